@@ -397,8 +397,12 @@ def build_simple(ex, bi: int, law_name: str, law) -> LemmaSpec:
             raise NotHandled("law contains an applied function besides the unknown")
     else:
         outs = [o for o in ex.specs.get("output", []) if isinstance(o, sympy.Symbol) and o in rest]
+        via_sigma = [o for o in ex.specs.get("output", []) if isinstance(o, sympy.Symbol)
+            and any(o in sympy.sympify(v).free_symbols for v in sigma.values())]
         if len(rest) == 1:
             ysym = next(iter(rest))
+        elif not rest and via_sigma:
+            ysym = via_sigma[0]     # the unknown enters the law through an expression-valued argument (b ** unknown)
         elif outs and kind == "structured":
             ysym = outs[0]          # leftover symbols (integration / differentiation variables) stay universally quantified
         else:
